@@ -362,6 +362,118 @@ func trickName(z *zone, p string) name {
 	return z.apex.parent().child(p + "." + z.apex[0])
 }
 
+// genWildSigs: RRSIGs of a positive answer claiming wildcard expansion.  One to
+// three RRsets; owners that really match a wildcard, owners that exist
+// (a replayed wildcard signature), owners sharing one closest encloser, the
+// same owner twice (dual-signed RRset), Labels at, above and below the true
+// closest encloser, non-expanded RRSIGs in between.
+func genWildSigs(r *vlib.R, z *zone) []ansSig {
+	var out []ansSig
+	first := genQuery(r, z).fold()
+	if !first.under(z.apex) || len(first) <= len(z.apex) {
+		first = z.apex.child(genLabel(r))
+	}
+	ce := z.closestEncloser(first)
+	// most of the time: below an encloser that really has a wildcard (whose
+	// signature can be replayed over anything below that encloser)
+	var wilds []name
+	for _, nd := range z.auth() {
+		if nd.n[0] == "*" {
+			wilds = append(wilds, nd.n.parent())
+		}
+	}
+	if len(wilds) > 0 && r.Chance(3, 4) {
+		ce = vlib.Pick(r, wilds)
+		var below []name
+		for _, t := range z.tree() {
+			if len(t) > len(ce) && t.under(ce) {
+				below = append(below, t)
+			}
+		}
+		switch k := r.Intn(4); {
+		case k == 0 && len(below) > 0:
+			first = vlib.Pick(r, below) // an existing name / ENT / occluded name below the encloser
+		case k == 1 && len(below) > 0:
+			first = vlib.Pick(r, below).child(genLabel(r))
+		default:
+			first = ce.child(genLabel(r))
+			if r.Bool() {
+				first = first.child(genLabel(r))
+			}
+		}
+	}
+	labels := len(ce)
+	switch r.Intn(8) {
+	case 0:
+		labels = len(z.apex) + r.Intn(len(first)-len(z.apex)+1)
+	case 1:
+		labels = len(first) // not expanded
+	}
+	out = append(out, ansSig{owner: first, labels: labels})
+	n := r.Intn(3)
+	for i := 0; i < n; i++ {
+		var o name
+		switch r.Intn(4) {
+		case 0:
+			o = first // dual-signed
+		case 1:
+			// an existing name below the same encloser (its signature is a replay)
+			var cands []name
+			for _, t := range z.tree() {
+				if len(t) > labels && t.under(first.suffix(min(labels, len(first)))) {
+					cands = append(cands, t)
+				}
+			}
+			if len(cands) == 0 {
+				continue
+			}
+			o = vlib.Pick(r, cands)
+		case 2:
+			o = first.suffix(min(labels, len(first))).child(genLabel(r))
+		default:
+			o = genQuery(r, z).fold()
+		}
+		l := labels
+		if r.Chance(1, 6) {
+			l = len(o)
+		}
+		out = append(out, ansSig{owner: o, labels: l})
+	}
+	if r.Bool() {
+		for i := len(out) - 1; i > 0; i-- {
+			j := r.Intn(i + 1)
+			out[i], out[j] = out[j], out[i]
+		}
+	}
+	return out
+}
+
+// wildSet: the records a proof about the FIRST listed expansion would use, or
+// about all of them, plus noise.
+func wildSet(r *vlib.R, z *zone, gs []ansSig) []rec {
+	ch := z.chain()
+	var set []rec
+	seen := map[string]bool{}
+	for i, g := range gs {
+		if g.labels >= len(g.owner) || (i > 0 && r.Bool()) {
+			continue
+		}
+		for _, rc := range relevant(z, ch, g.owner.suffix(g.labels+1)) {
+			if !seen[rc.owner.key()] {
+				seen[rc.owner.key()] = true
+				set = append(set, rc)
+			}
+		}
+	}
+	for _, rc := range ch {
+		if r.Chance(1, 6) && !seen[rc.owner.key()] {
+			seen[rc.owner.key()] = true
+			set = append(set, rc)
+		}
+	}
+	return set
+}
+
 func genSigner(r *vlib.R, z *zone) name {
 	switch k := r.Intn(40); {
 	case k == 0 && len(z.apex) > 0:
@@ -429,6 +541,44 @@ func genNsecCase(r *vlib.R, emit func(string)) int {
 		}
 		if r.Chance(1, 4) {
 			emit("z filter " + genSigner(r, z).String())
+			cnt++
+		}
+		if r.Chance(1, 3) {
+			// DNAME in the answer section: owner = an ancestor of the question, a
+			// sibling, the question itself, a look-alike; target in or out of the zone
+			qq := genQuery(r, z)
+			var ds [][2]name
+			for i := 0; i < 1+r.Intn(2); i++ {
+				var o name
+				switch k := r.Intn(6); {
+				case k < 3 && len(qq) > 1:
+					o = qq.suffix(1 + r.Intn(len(qq)-1))
+				case k == 3:
+					o = qq
+				case k == 4 && len(qq) > 0:
+					o = trickName(z, qq[0])
+				default:
+					o = genQuery(r, z)
+				}
+				t := vlib.Pick(r, z.tree())
+				if r.Chance(1, 3) {
+					t = name{"target", "zzz"}
+				}
+				ds = append(ds, [2]name{o, t})
+			}
+			emit(fmt.Sprintf("z dname %s %s", qq, dnamesStr(ds)))
+			tt := vlib.Pick(r, qtypes)
+			emit(fmt.Sprintf("z nxdd %s %s %d %s", genSigner(r, z), qq, tt, dnamesStr(ds)))
+			emit(fmt.Sprintf("z nodd %s %s %d %s", genSigner(r, z), qq, tt, dnamesStr(ds)))
+			cnt += 3
+		}
+		if r.Chance(1, 2) {
+			gs := genWildSigs(r, z)
+			if r.Chance(3, 4) {
+				emit("z set " + recsStr(wildSet(r, z, gs)))
+				cnt++
+			}
+			emit(fmt.Sprintf("z wild %s %s", genSigner(r, z), ansSigsStr(gs)))
 			cnt++
 		}
 	}
@@ -503,6 +653,14 @@ func witnessOps() []string {
 		"z new ~21.test 1 ~21.test:2,6,46,47,48;x.~21.test:1,46,47",
 		"z set x.~21.test|~21.test|1|1,46,47",
 		"z agg test zz.test 1 1",
+		// wildcard-expanded answers: every expanded RRset needs its OWN next-closer
+		// denial (two owners sharing one closest encloser, only one denied), and an
+		// empty non-terminal next closer is no denial
+		"z new example 1 example:2,6,46,47,48;*.example:1,46,47;www.example:1,46,47;a.b.example:1,46,47",
+		"z set *.example|a.b.example|1|1,46,47;a.b.example|www.example|1|1,46,47",
+		"z wild example alias.example:1;www.example:1",
+		"z wild example www.example:1;alias.example:1",
+		"z wild example x.b.example:1",
 		// NSEC3: delegation point's record used to deny data at the delegation point
 		"h new example 1 example:2,6,46,48,51;sub.example:2,46;zzz.example:1,46 - 0 -",
 		"h set H0e19edc62ea5a129ac22c11f50edeb0c5c328128|example|H1db8efa7dcb348bda7893fca1d8badfdb6996b01|20|1|0|0|-|1|2,46",
